@@ -47,5 +47,7 @@ def gen(tier, seed):
 
 
 def suites(tier, seed):
-    return [Suite("calls", "machine", lambda: gen(tier, seed), monitor=monitor, nontrivial=nontrivial, canon=mg.canon_nondet, candidate_ok=mg.candidate_ok,
+    return [Suite("reply-then-close", "machine", lambda: mg.reply_close_cases(Rng(seed + 77), kinds=("chan", "conn")), monitor=monitor, nontrivial=lambda c, il: True, canon=mg.canon_nondet, candidate_ok=mg.candidate_ok, exhaustive=True,
+                  rule="directed: a call in flight on channel 1, a second channel busy; the reply and a server close arrive back to back (one read / two reads / handed over directly; reply taken before or after the close) for queue bounds 0, 1, 2, 16: both reach the caller in order, the other channel keeps working (channel close) or is told (connection close)"),
+            Suite("calls", "machine", lambda: gen(tier, seed), monitor=monitor, nontrivial=nontrivial, canon=mg.canon_nondet, candidate_ok=mg.candidate_ok,
                   rule="random sessions with 2-6 channels issuing calls (every kind of generic reply, consume, get, cancel, channel close) whose replies the scripted server sends in arbitrary cross-channel order, directly or through the stream; includes crossing closes and id reuse")]
